@@ -255,10 +255,12 @@ func (rt *runtime) cmplEvaluateNodeCallExpression(node *nodeCallExpression, with
 func (rt *runtime) cmplEvaluateNodeConditionalExpression(node *nodeConditionalExpression) Value {
 	test := rt.cmplEvaluateNodeExpression(node.test)
 	testValue := test.resolve()
+	// The result is a value, not a reference (ES5 11.12: GetValue), so
+	// (c ? o.m : f)() does not call m with o as its this value.
 	if testValue.bool() {
-		return rt.cmplEvaluateNodeExpression(node.consequent)
+		return rt.cmplEvaluateNodeExpression(node.consequent).resolve()
 	}
-	return rt.cmplEvaluateNodeExpression(node.alternate)
+	return rt.cmplEvaluateNodeExpression(node.alternate).resolve()
 }
 
 func (rt *runtime) cmplEvaluateNodeDotExpression(node *nodeDotExpression) Value {
